@@ -32,6 +32,15 @@ impl FixtureDatabase {
         let file_path = self.get_canonical_path(file_path);
 
         debug!("Analyzing file: {:?}", file_path);
+        #[cfg(pytest_language_server_verif)]
+        super::verif_hooks::event(
+            if cleanup_previous {
+                "analyze_enter"
+            } else {
+                "analyze_fresh_enter"
+            },
+            &file_path,
+        );
 
         // Cache the file content for later use (e.g., in find_fixture_definition)
         // Use Arc for efficient sharing without cloning
@@ -48,6 +57,8 @@ impl FixtureDatabase {
                     "Failed to parse Python file {:?}: {} - keeping previous data",
                     file_path, e
                 );
+                #[cfg(pytest_language_server_verif)]
+                super::verif_hooks::event("analyze_exit_parse_error", &file_path);
                 return;
             }
         };
@@ -105,6 +116,8 @@ impl FixtureDatabase {
         self.invalidate_cycle_cache();
 
         debug!("Analysis complete for {:?}", file_path);
+        #[cfg(pytest_language_server_verif)]
+        super::verif_hooks::event("analyze_exit", &file_path);
 
         // Periodically evict cache entries to prevent unbounded memory growth
         self.evict_cache_if_needed();
